@@ -17,6 +17,7 @@ mod cli;
 mod ledger;
 mod impgen;
 mod c17;
+mod c17x;
 mod c16;
 mod syntax_term;
 mod fmtworker;
